@@ -15,7 +15,9 @@ RULE = ("all layouts of 1..3 fields over the full field alphabet (BOOLEAN:1, BOO
         "k=1..8, every 16..64-bit integer type, REAL32, REAL64 at full length) with total <= 64 bits, all layouts of 4..N "
         "fields over the reduced alphabet {BOOLEAN:1, UNSIGNED8:4, INTEGER8:3, UNSIGNED8:8, INTEGER16}; per field every "
         "value for length <= 8 (boundary set above / in 3+-field layouts), three initial frame contents; each evaluation "
-        "reads the field and writes it, comparing the whole frame; plus two-write sequences on neighbouring fields. "
+        "reads the field and writes it, comparing the whole frame; plus two-write sequences on neighbouring fields; every "
+        "layout is evaluated on a fresh map object, and every 1..2-field layout (thorough: +1 reduced field) again on a map "
+        "object that held one of four earlier layouts (64-bit, 1-bit, 24-bit mixed, 8 bytes) filled with FF and was cleared. "
         "non-trivial = distinct layouts containing a field that is not byte aligned or not a whole number of bytes")
 ASSUMPTIONS = [
     "frame = little-endian integer, bit 0 of byte 0 first; signed fields are two's complement and sign-extended on read",
@@ -34,6 +36,8 @@ FULL = [("BOOLEAN", 1), ("BOOLEAN", 8)] + [("UNSIGNED8", k) for k in range(1, 9)
        [(n, w) for n, (w, sg) in TYPES.items() if w > 8]
 REDUCED = [("BOOLEAN", 1), ("UNSIGNED8", 4), ("INTEGER8", 3), ("UNSIGNED8", 8), ("INTEGER16", 16)]
 INITS = (0x00, 0xFF, 0xA5)
+PRIORS = ([("UNSIGNED64", 64)], [("BOOLEAN", 1)], [("UNSIGNED8", 3), ("INTEGER16", 16), ("UNSIGNED8", 5)],
+          [("UNSIGNED8", 8)] * 8)
 
 
 def bounds(tier):
@@ -50,6 +54,10 @@ def cases(tier, seed):
     for a in range(len(REDUCED)):
         for b in range(len(REDUCED)):
             out.append({"part": "reduced", "first": [a, b], "maxf": maxf})
+    # re-mapping histories on ONE map object: an earlier layout (filled with FF), clear(), then the layout under test
+    for p in range(len(PRIORS)):
+        for a in range(len(FULL)):
+            out.append({"part": "remap", "prior": p, "first": a, "depth": 2 if tier == "quick" else 3})
     if tier == "thorough":
         for a in range(len(FULL)):
             for b in range(len(FULL)):
@@ -145,9 +153,16 @@ def sgn(name):
     return "float" if sg is None else ("signed" if sg else "unsigned")
 
 
-def eval_layout(layout, st, case, allvals, seq=True):
-    node, m, idx = node_and_map()
-    m.clear()
+def eval_layout(layout, st, case, allvals, seq=True, prior=None):
+    from canopen.pdo.base import PdoMap
+    node, m0, idx = node_and_map()
+    # a fresh map object per evaluation (self-contained); histories on one object are the explicit "remap" part
+    m = PdoMap(m0.pdo_node, m0.com_record, m0.map_array)
+    if prior is not None:
+        for name, length in prior:
+            m.add_variable(idx[name], 0, length)
+        m.data[:] = b"\xff" * len(m.data)
+        m.clear()
     vars_ = []
     off = 0
     offs = []
@@ -159,6 +174,8 @@ def eval_layout(layout, st, case, allvals, seq=True):
     total = off
     nbytes = (total + 7) // 8
     rc = dict(case, layout=[list(f) for f in layout])
+    if prior is not None:
+        rc["prior_layout"] = [list(f) for f in prior]
     if len(m.data) != nbytes:
         st.violation("C05:frame-length", rc, nbytes, len(m.data))
         return
@@ -271,9 +288,24 @@ def eval_layout(layout, st, case, allvals, seq=True):
 def run_case(case, st):
     if "layout" in case:
         eval_layout([tuple(f) for f in case["layout"]], st, {k: v for k, v in case.items() if k not in
-                                                             ("layout", "field", "init", "v", "seq")}, True)
+                                                             ("layout", "field", "init", "v", "seq", "prior_layout")}, True,
+                    prior=[tuple(f) for f in case["prior_layout"]] if case.get("prior_layout") else None)
         return
     n = 0
+    if case["part"] == "remap":
+        prior = PRIORS[case["prior"]]
+        first = FULL[case["first"]]
+        layouts = [[first]]
+        for b in FULL:
+            if first[1] + b[1] <= 64:
+                layouts.append([first, b])
+                if case["depth"] >= 3:
+                    layouts += [[first, b, c] for c in REDUCED if first[1] + b[1] + c[1] <= 64]
+        for lay in layouts:
+            eval_layout(lay, st, case, allvals=False, prior=prior)
+            st.nontrivial_n += 1
+        st.count("remap_layouts", len(layouts))
+        return
     if case["part"] == "full":
         first = FULL[case["first"]]
         layouts = [[first]]
